@@ -108,9 +108,9 @@ Proof.
   (* the header hypotheses *)
   assert (HH : hdr_hyps d i sv F tos ccs).
   { constructor; auto.
-    - now apply join_nonempty.
+    - now apply good_value_nonempty.
     - apply (HoL hdr_to). rewrite Haddr. now left.
-    - intros Hne. split; [now apply join_nonempty|]. apply (HoL hdr_cc). rewrite Haddr.
+    - intros Hne. split; [apply good_value_nonempty; now apply Hccs|]. apply (HoL hdr_cc). rewrite Haddr.
       destruct ccs; [congruence|]. right. now left. }
   (* the projection of the built message *)
   assert (HPB : project_built d m = mkproj (Some sv) [F] tos ccs (Some d)
